@@ -46,6 +46,7 @@ class Failure:
     src: Optional[str] = None     # file:line in /repo
     exit_src: Optional[str] = None
     rendered: str = ""
+    origin: str = ""         # label | src | inj | lib | gen
 
 
 @dataclass
@@ -237,6 +238,7 @@ def _classify(res: UnitResult, b: extract.UnitBuilder, out, diags):
         else:
             fnq = f["qual"] if f else "?"
             fl = Failure(res.unit, fnq, f"{fnq}@gen:{line}:{_short(msg)}", msg, False, "semantic" if f else "tool", line, None, exit_src, rendered)
+        fl.origin = tag["kind"]
         res.failures.append(fl)
     if not errs and not vr.get("success"):
         res.undecided = "verus reported failure without diagnostics"
